@@ -139,7 +139,34 @@ def s_many_big(rng, nval):
     return s_many(rng, nval, sizes=(60, 100, 140))
 
 
-STRATA = [(s_mix, 6), (s_mix_head, 4), (s_memory, 2), (s_many, 1)]
+def s_bundle_head(rng, nval):
+    """Bundle literals whose members sit at the head of the allocation pool, next to untyped values that share
+    wires with the bundle (any/all thresholds, each-operation scalars, selections)."""
+    members = rng.sample(gen.HEAD_VIRT, k=rng.randint(2, 4))
+    prog = [["bun", "b", ["B", [["t", t, ["n", rng.randint(1, 9)]] for t in members]]]]
+    nu = rng.randint(1, 3)
+    for i in range(nu):
+        prog.append(["input", "u%d" % i, None, rng.randint(1, 9)])
+    far = gen.Types(rng, ("far", "item"))
+    for k in range(rng.randint(1, 4)):
+        u = ["v", "u%d" % rng.randrange(nu)]
+        form = rng.choice(["any", "all", "sel", "each", "filter", "plain"])
+        if form in ("any", "all"):
+            prog.append(["sig", "r%d" % k, [form, rng.choice(CMP_OPS), ["v", "b"], u]])
+        elif form == "sel":
+            prog.append(["sig", "r%d" % k, ["b", rng.choice(["+", "*"]), ["bs", ["v", "b"], rng.choice(members)], u]])
+        elif form == "each":
+            prog.append(["bun", "r%d" % k, ["bb", rng.choice(["+", "*", "-"]), ["v", "b"], u]])
+        elif form == "filter":
+            prog.append(["bun", "r%d" % k, ["bf", rng.choice(CMP_OPS), ["v", "b"], u, "copy"]])
+        else:
+            prog.append(["sig", "r%d" % k, ["b", "+", u, ["n", rng.randint(1, 5)]]])
+    if rng.random() < 0.5:
+        prog.append(["sig", "e", ["p", ["b", "+", ["v", "u0"], ["n", 1]], far.fresh()]])
+    return _mk(prog, "bundle_literal_at_head_of_pool", rng, nval, small=True)
+
+
+STRATA = [(s_mix, 6), (s_mix_head, 4), (s_memory, 2), (s_many, 1), (s_bundle_head, 3)]
 
 
 def gen_cases(tier, seed):
